@@ -6,9 +6,19 @@
    Decision-margin rule: the trace is compared pass by pass up to the first pass in which a comparison made by the
    model (arg-min of a row of the distance matrix, energy_1 <= energy_0, u <= acceptance*factor, chi2 < chi2_min)
    has a relative margin below 2^-30 (9.3e-10); from there on the case is INDET (a one-ulp difference in summation
-   order may legitimately flip such a decision). *)
+   order may legitimately flip such a decision).  The same holds for a single-atom move that is ill conditioned (cross
+   product of the displacement direction or a pre-move distance close to zero: thresholds of Corr/CheckC07.v).
+
+   Degenerate geometries.  Where numpy divides 0/0 (a zero cross product in find_atom_random_displ, coincident atoms in
+   move_mol_atom) no exception is raised: the trial array is nan, its measure is nan, `nan <= chi2` is False,
+   factor = chi2/nan = nan, `rand() <= nan` is False: the pass is REJECTED, ONE uniform draw is consumed and the counter
+   is incremented.  The model's proposal is `Err EDiv0` there (Model/Transform.v; the theorems speak of runs that return
+   Ok).  `run_resume` therefore runs the model loop (MC.mc_loop) up to such a pass, requires the observation "measure
+   nan, rejected" for it, and resumes the model loop from the same held state with counter + 1 behind the draws of
+   that pass (type, proposal, uniform).  A nan trial that is accepted, or judged without a uniform draw, is a
+   disagreement. *)
 From Coq Require Import Bool String.
-From GM Require Import Corr.CorrBase Corr.CheckC08 Model.Aux Model.Transform Model.Chi2 Model.MC Model.Restraints Model.Align.
+From GM Require Import Corr.CorrBase Corr.CheckC07 Corr.CheckC08 Model.Aux Model.Transform Model.Chi2 Model.MC Model.Restraints Model.Align.
 Open Scope bool_scope.
 Open Scope float_scope.
 
@@ -94,16 +104,72 @@ Definition step_decided (c : chi2_calc float) (r : step_rec float (list (V3 floa
 
 Inductive walk_res := WAgree | WIndet | WBad.
 
+Notation frec := (step_rec float (list (V3 float))).
+Notation fstate := (state float (list (V3 float))).
+
+(* a single-atom move whose result is decided by the data (not by rounding noise): thresholds of CheckC07 *)
+Definition atom_pass_ok (tb : bond_table float) (ss : float) (held : list (V3 float)) (a : adraw float) : bool :=
+  let '(k, u, neg, g) := a in
+  let scale := fmax (pos_amax held) (tbl_amax tb) in
+  match displ_direction held tb k u neg, find_atom_random_displ held tb k ss u neg g with
+  | Ok dir, Ok d =>
+      if vnorm dir <? 0x1p-20 * scale * fmin 1 scale then false else
+      match move_mol_atom_tr held tb k d (length held) with
+      | Ok (out, _, tr) =>
+          let '(worst, mmin) := conditioning held out tr k in
+          negb ((mmin <? 0x1p-13 * scale) || (0x1p+18 <? worst))
+      | Err _ => true          (* the proposal fails in the model: a nan trial, see run_resume *)
+      end
+  | _, _ => true
+  end.
+
+(* draws consumed by the passes of a trace: type + proposal (+ uniform) *)
+Definition consumed (tr : list frec) : nat :=
+  fold_left (fun n r => (n + match sr_u r with Some _ => 3 | None => 2 end)%nat) tr 0%nat.
+Definition last_state (st : fstate) (tr : list frec) : fstate := fold_left (fun _ r => sr_after r) tr st.
+
+(* the model loop, resumed behind every pass whose proposal is Err EDiv0 (None in the result = such a pass) *)
+Fixpoint run_resume (scos ssin : float -> float) (oc : opt_call float) (rounds : nat) (st : fstate)
+    (s : stream float (pdraw float (adraw float))) (fuel : nat) : list (option frec) * res (list (V3 float)) :=
+  let a := oc_args oc in
+  let (tr, out) := mc_loop (list (V3 float)) (pdraw float (adraw float)) (chi2_tot (oc_calc oc))
+                           (propose scos ssin (oc_calc oc) (ma_table a) (ma_sigma a)) (oc_sim oc) (ma_steps a)
+                           fuel st s in
+  match out, rounds with
+  | Err EDiv0, S rounds' =>
+      let st1 := last_state st tr in
+      match skipn (consumed tr) s with
+      | DChoice _ :: DProp _ :: DRand _ :: s2 =>
+          let st2 := mkState (held st1) (e_held st1) (e_min st1) (S (counter st1)) in
+          let (tr2, out2) := run_resume scos ssin oc rounds' st2 s2 (fuel - length tr - 1) in
+          (map Some tr ++ None :: tr2, out2)
+      | _ => (map Some tr, Err EStop)
+      end
+  | _, _ => (map Some tr, out)
+  end.
+
+Fixpoint props_of (s : stream float (pdraw float (adraw float))) : list (pdraw float (adraw float)) :=
+  match s with
+  | [] => []
+  | DProp p :: s' => p :: props_of s'
+  | _ :: s' => props_of s'
+  end.
+
 (* model trace against observed passes *)
-Fixpoint walk (c : chi2_calc float) (tr : list (step_rec float (list (V3 float)))) (obs : list ostep)
-  : walk_res :=
-  match tr, obs with
-  | [], [] => WAgree
-  | r :: tr', o :: obs' =>
-      if negb (step_decided c r) then WIndet
-      else if rel_close tol_e (sr_e1 r) (os_e1 o) && Bool.eqb (sr_acc r) (os_acc o) then walk c tr' obs'
+Fixpoint walk (c : chi2_calc float) (tb : bond_table float) (ss : float) (tr : list (option frec))
+    (props : list (pdraw float (adraw float))) (obs : list ostep) : walk_res :=
+  match tr, props, obs with
+  | [], _, [] => WAgree
+  | Some r :: tr', p :: props', o :: obs' =>
+      let cond := match p with PAtom a => atom_pass_ok tb ss (held (sr_before r)) a | _ => true end in
+      if negb (step_decided c r && cond) then WIndet
+      else if rel_close tol_e (sr_e1 r) (os_e1 o) && Bool.eqb (sr_acc r) (os_acc o) then walk c tb ss tr' props' obs'
       else WBad
-  | _, _ => WBad
+  | None :: tr', _ :: props', o :: obs' =>
+      (* nan trial: must have been rejected; a finite observed measure means the two sides stand on different
+         sides of an exact zero: not comparable *)
+      if f_isnan (os_e1 o) then (if os_acc o then WBad else walk c tb ss tr' props' obs') else WIndet
+  | _, _, _ => WBad
   end.
 
 (* the scale the code passed to np.random.normal inside move_mol_atom = first tabulated length * sigma_scale *)
@@ -137,8 +203,9 @@ Definition chk_align (sf : Z) (start end_ : amol float) (restr : option (list (Z
       if negb (args_close a oa && fixed_ok && sigmas_ok (ma_table a) (ma_sigma a) sigmas) then DISAGREE
       else if negb (rows_decided (oc_calc oc) (ma_mobile a)) then INDET
       else
-        let (tr, out) := run_opt scos ssin oc s (length steps) in
-        match walk (oc_calc oc) tr steps with
+        let st0 := init_state (list (V3 float)) (chi2_tot (oc_calc oc)) (ma_mobile a) in
+        let (tr, out) := run_resume scos ssin oc (length steps) st0 s (length steps) in
+        match walk (oc_calc oc) (ma_table a) (ma_sigma a) tr (props_of s) steps with
         | WBad => DISAGREE
         | WIndet => INDET
         | WAgree =>
